@@ -10,6 +10,13 @@ Theorem C16_state_free_table : state_free_b = true.
 Proof. exact state_free_table. Qed.
 Print Assumptions C16_state_free_table.
 
+(* T-GEN: the process-global mutable state found in the current source is exactly the reviewed one (a new cache / memo table /
+   registry, or a reviewed one read from a new function, breaks this obligation until it has been reviewed) *)
+Theorem C16_global_state_reviewed :
+  subset_b mutable_globals mutable_globals_reviewed = true /\ subset_b function_global_reads function_global_reads_reviewed = true.
+Proof. exact (conj global_state_reviewed function_global_reads_are_reviewed). Qed.
+Print Assumptions C16_global_state_reviewed.
+
 (* a value looked up through the cache equals the recomputed value, whatever the history: an empty cache in the
    receiving process gives the same answers as the warm cache of the sender *)
 Theorem C16_cache_fallback_transparent : forall (V : Type) (f : nat -> option V) ks s,
